@@ -4,11 +4,12 @@ import math
 import numpy as np
 
 ID = "C16"
-CASES = {"quick": 6000, "thorough": 160000}
-MIN_NONTRIVIAL = {"quick": 1500, "thorough": 40000}
+CASES = {"quick": 6000, "thorough": 1400000}
+MIN_NONTRIVIAL = {"quick": 1500, "thorough": 145749}
 REQUIRED = ["value==shannon", "0<=E<=log n", "equal-lengths=>log n", "perm-invariant", "translate-invariant",
             "rescale-invariant", "normalised in [0,1]", "list=>vector in order", "keep_inf=False drops",
-            "keep_inf=True,val_inf replaces", "keep_inf=True without value raises", "non-positive bar raises"]
+            "keep_inf=True,val_inf replaces", "keep_inf=True without value raises", "non-positive bar raises",
+            "normalised with infinite bars dropped == H / log(#finite bars)", "list of barcodes: infinite bars replaced / dropped in every member"]
 RULE = ("random barcodes (1-50 bars; classes: integer/dyadic lengths, equal lengths, one dominant bar, lengths over 12 "
         "orders of magnitude, floats), 0-3 infinite bars, lists of 1-6 barcodes, all flag combinations, zero/negative "
         "length bars at random positions; non-trivial = >=3 bars with >=2 distinct lengths; distinct = digest of "
@@ -172,6 +173,20 @@ def run_case(ctx, k, rng):
                       dropped=Ed, want_dropped=refd)
         except Exception as e:
             ctx.exception("list of barcodes: infinite bars replaced / dropped in every member", e)
+        # normalisation is by the number of bars that enter the sum (after dropping / replacing the infinite ones)
+        try:
+            nfin = int(np.sum(np.isfinite(big[:, 1])))
+            if nfin >= 2:
+                En = float(call(ctx, big, keep_inf=False, normalize=True)[0])
+                ctx.check("normalised with infinite bars dropped == H / log(#finite bars)", abs(En - ref / math.log(nfin)) <= tol,
+                          got=En, want=ref / math.log(nfin), finite_bars=nfin, all_bars=len(big))
+            Ekn = float(call(ctx, big, keep_inf=True, val_inf=v, normalize=True)[0])
+            repl2 = np.where(np.isinf(big), v, big)
+            want = shannon([float(d - b) for b, d in repl2]) / math.log(len(big))
+            ctx.check("normalised with infinite bars replaced == H / log(#bars)", abs(Ekn - want) <= 1e-12 * (1 + math.log(len(big))),
+                      got=Ekn, want=want)
+        except Exception as e:
+            ctx.exception("normalised with infinite bars dropped == H / log(#finite bars)", e)
         try:
             r = call(ctx, big, keep_inf=True)
             ctx.check("keep_inf=True without value raises", False, got=repr(r))
